@@ -340,6 +340,11 @@ class RState:
         self.cs = self.pos
 
 
+class Diverges(Exception):
+    """the reading rules do not terminate on this input: a read-to-end loop whose element consumed
+    nothing (no more data became reachable, the state repeats)"""
+
+
 class NegativeLength(Exception):
     """the documented ValueError: hostile data decoded to a negative fixed-string length"""
 
@@ -479,9 +484,12 @@ def _parse_obj(spec, decl, st, ctx_chunked):
                 items = []
                 if n is None:
                     while st.rem() > 0:
+                        before = (st.pos, st.cs, st.chunked)
                         items.append(_read_value(spec, tref, st, ins, lenvals))
                         if ins.delimited:
                             st.next_chunk()
+                        if (st.pos, st.cs, st.chunked) == before:
+                            raise Diverges(ins.name)
                 else:
                     for i in range(n):
                         items.append(_read_value(spec, tref, st, ins, lenvals))
